@@ -122,6 +122,9 @@ def generate(rng, kind, n):
             opts.append(("checksums", [], "path", "/abs/path"))
             if d["media"]["discnum"]:
                 opts += [("media", [], f, v) for f, vs in TI_MEDIA.items() for v in vs]
+            else:
+                # the usual tree has no media information: a single corrupted media field must still be refused
+                opts += [("media", [], "discnum", v) for v in ["one", "1", 1.5, [1]]] + [("media", [], "totaldiscs", v) for v in ["two", [2]]]
             where, pos, f, v = rng.choice(opts)
             cases.append({"kind": kind, "content": d, "where": where, "pos": pos, "field": f, "value": v})
         else:
